@@ -115,6 +115,15 @@ impl AnyServer {
         if buf.len() != need {
             buf.resize(need, 0);
         }
+        // What the response buffer holds beforehand is the caller's business (the I/O providers
+        // reuse theirs): half of the calls find what the previous response left behind, the others
+        // find every octet set to 0xff or to 0x5a (chosen by the request's octets, so that a
+        // replay sees the same).
+        match request.iter().fold(0x811c_9dc5u32, |h, b| (h ^ *b as u32).wrapping_mul(0x0100_0193)) % 4 {
+            2 => buf.fill(0xff),
+            3 => buf.fill(0x5a),
+            _ => {}
+        }
         let info = ReceivedInfo::new(source, if tcp { Transport::Tcp } else { Transport::Udp });
         catch(|| {
             let r = with_server!(self, v => v.handle_message(request, info, &mut buf[..]));
